@@ -171,9 +171,9 @@ CanonSame == ~IsNeg(b, s) =>
   Unsigned(b, Canon(b, s)) = Unsigned(b, s)
 
 \* every value met is inside the range of its base; scaled by 10^e it
-\* grows; once it has more digits than the bounds of the base it is outside,
-\* and a non-negative value read in a smaller base stays inside that range
-\* exactly when it is below its upper bound
+\* grows (zero stays zero); once it has more digits than the bounds of the
+\* base it is outside, and what is outside at 10^e is outside at every
+\* larger power
 EveryValueInRange == InRange(b, Val(b, s))
 ScaledOutside ==
   LET v == Val(b, s) IN
